@@ -138,6 +138,8 @@ def oracle (req out : Sexp) : String :=
     else
       match out with
       | .atom "panic" => "viol operation-panics"
+      -- the harness saw a prepared (uncommitted) clone change the live user manager
+      | .list [.atom "clone-shares-state-with-its-source"] => "viol uncommitted-prepare-changes-live-credentials"
       | .list (.atom "ok" :: .list (.atom "ans" :: obs) :: _) =>
         let sp := specStates (specInit c.init) c.ops
         if obs.length != sp.length then "viol unparsable" else judgeAll sp c.ops c.queries obs
